@@ -26,6 +26,9 @@ let rec range a b = if a >= b then [] else a :: range (a + 1) b
 let run_ba cap ops =
   let capn = n_of_int cap in
   let dump b =
+    if cap > 5000 then begin     (* large arrays: the non-zero storage units of the model's byte list as unit:byte *)
+      pr " nz="; List.iteri (fun u x -> let v = int_of_n x in if v <> 0 then pr "%d:%d," u v) b; pr " empty=%d" (if ba_empty b then 1 else 0) end
+    else
     pr " bits=%s empty=%d" (String.concat "" (List.map (fun i -> if ba_get b (n_of_int i) then "1" else "0") (range 0 cap)))
       (if ba_empty b then 1 else 0) in
   let b = ref (ba_init capn) in
@@ -67,7 +70,10 @@ let run_da cap ops =
       pr "%s%s" name (args_str args);
       (match name, args with
        | "emp", [v] -> let (a', i) = da_emplace !a v in a := a'; pr " ->%d" (int_of_nat i)
-       | "add", [v] -> a := da_append !a v
+       | "add", [v] | "addc", [v] -> a := da_append !a v
+       | "emplv", [i] | "empc", [i] -> let (a', k) = da_emplace !a (da_get 0 !a (nat_of_int i)) in a := a'; pr " ->%d" (int_of_nat k)
+       | "addlv", [i] -> a := da_append !a (da_get 0 !a (nat_of_int i))
+       | "addall2", vs -> let o = List.fold_left (fun o v -> fst (da_emplace o v)) (da_init 0 (nat_of_int 7)) vs in a := da_append_all 0 !a o
        | "get", [i] -> pr " ->%d" (da_get 0 !a (nat_of_int i))
        | "clear", _ -> a := da_clear !a
        | "addall", vs -> let o = List.fold_left (fun o v -> fst (da_emplace o v)) (da_init 0 (nat_of_int cap)) vs in a := da_append_all 0 !a o
@@ -100,11 +106,14 @@ let run_bs bits ops =
   List.iter (fun (name, args) ->
       pr "%s%s" name (args_str args);
       (match name, args with
-       | "ws", _ -> data := buffer_clear (n_of_int bits); wc := N0; pr " cursor=%d" (int_of_n !wc)
+       | "ws", [] -> data := buffer_clear (n_of_int bits); wc := N0; pr " cursor=%d" (int_of_n !wc)
+       | "ws", [c] -> data := buffer_clear (n_of_int bits); wc := n_of_int c; pr " cursor=%d" (int_of_n !wc)      (* the constructor clears the whole buffer whatever the cursor *)
+       | "dirty", [b] -> data := List.map (fun _ -> n_of_int b) !data
        | "w", [w; v] -> let (d, c) = write !data !wc (n_of_int w) (n_of_int v) in data := d; wc := c; pr " cursor=%d" (int_of_n !wc)
        | "snap", _ -> shadow := !data
        | "eq", _ -> let e = (List.map int_of_n !data = List.map int_of_n !shadow) in pr " ->%s%s" (if e then "1" else "0") (if e then "0" else "1")
-       | "rs", _ -> rc := N0; pr " cursor=%d" (int_of_n !rc)
+       | "rs", [] -> rc := N0; pr " cursor=%d" (int_of_n !rc)
+       | "rs", [c] -> rc := n_of_int c; pr " cursor=%d" (int_of_n !rc)
        | "r", [w] -> let (v, c) = read !data !rc (n_of_int w) in rc := c; pr " ->%d cursor=%d" (int_of_n v) (int_of_n !rc)
        | _ -> ());
       dump (); pr "\n") ops
